@@ -492,7 +492,7 @@ impl World {
 
     fn after_op(&mut self, r: usize) {
         if let Some(m) = &self.reps[r].m {
-            if !m.has_staging() {
+            if !any_staged(m) {
                 let o = obs_full(m);
                 self.reps[r].clean_obs = Some(o);
             }
@@ -886,7 +886,10 @@ impl World {
                     fails.push(("C13", format!("commit returned {} heads", ids.len())));
                 }
                 let new_blocks: Vec<&String> = items_after.keys().filter(|k| k.ends_with(".delta") && !items_before.contains_key(*k)).collect();
-                if new_blocks.len() != 1 {
+                // (exactly one new block; none when a byte-identical block - the same edit on the same heads with
+                // the same metadata, committed by another replica - was delivered before: storage is write-once)
+                let already = ids.first().map(|id| items_before.contains_key(&format!("{}.delta", id))).unwrap_or(false);
+                if !(new_blocks.len() == 1 || (new_blocks.is_empty() && already)) {
                     fails.push(("C13", format!("commit created {} blocks", new_blocks.len())));
                 }
                 if let Some(id) = ids.first() {
@@ -942,8 +945,19 @@ impl World {
                     // C07: a committed resolution is durable - the objects resolved since the last commit are not in
                     // conflict for a replica reopened on the storage either (unless the storage held more than the
                     // committing replica had looked at)
+                    let held0: Vec<String> = m.verif_delta_status().iter().filter(|(_, s)| **s != "applied").map(|(k, _)| format!("{}.delta", k)).collect();
                     if !dirty_before {
-                        let fc: BTreeSet<String> = f_after.get("in_conflict").and_then(|x| x.as_array()).map(|a| a.iter().filter_map(|x| x.as_str().map(|s| s.to_string())).collect()).unwrap_or_default();
+                        // (held-back blocks set aside, as below)
+                        let f_c07 = if held0.is_empty() {
+                            f_after.clone()
+                        } else {
+                            let mut it = items_after.clone();
+                            for k in &held0 {
+                                it.remove(k);
+                            }
+                            fresh_obs(&it)
+                        };
+                        let fc: BTreeSet<String> = f_c07.get("in_conflict").and_then(|x| x.as_array()).map(|a| a.iter().filter_map(|x| x.as_str().map(|s| s.to_string())).collect()).unwrap_or_default();
                         let live_c = m.in_conflict();
                         for u in &resolved_pending {
                             if fc.contains(u) && !live_c.contains(u) {
@@ -1144,7 +1158,7 @@ impl World {
     fn op_reload(&mut self, r: usize) {
         let dirty = self.reps[r].dirty;
         let m = self.reps[r].m.as_ref().unwrap();
-        let staged = m.has_staging();
+        let staged = any_staged(m);
         let before = obs_full(m);
         let read_before = read_res(m);
         let res = m.reload();
@@ -1263,7 +1277,9 @@ impl World {
                     fails.push(("C07", "object still in conflict after resolution".into()));
                 }
                 let rd = read_res(m);
-                if read_before.get("ok").is_some() && rd.get("ok").is_none() {
+                // (resolving the root object in favour of its deletion makes `read` report that there is no root)
+                let root_deleted = chosen_deleted && uuid == "\u{221A}";
+                if read_before.get("ok").is_some() && rd.get("ok").is_none() && !(root_deleted && rd.get("err").is_some()) {
                     fails.push(("C07", format!("read fails after resolution: {}", js(&rd))));
                     fails.push(("C08", format!("read fails after resolution: {}", js(&rd))));
                 }
@@ -1442,6 +1458,21 @@ impl World {
         }
         let set: BTreeSet<DeltaId> = anchors.iter().map(|a| DeltaId::from(a).unwrap()).collect();
         let mut fails: Vec<(&str, String)> = vec![];
+        if any_staged(m) {
+            // object bodies staged without a staged revision: time travel must refuse and leave the replica alone
+            let before = obs_full(m);
+            let tt = m.reload_until(&set);
+            self.emit("until", r, if tt.is_ok() { "ok" } else { "err" }, json!({"anchors": anchors}));
+            let changed = obs_full(self.reps[r].m.as_ref().unwrap()) != before;
+            if tt.is_ok() {
+                self.fail("C15", "reload_until ran although object bodies were staged".into());
+            }
+            if changed {
+                self.fail("C15", "a refused reload_until changed the replica".into());
+                self.fail("C12", "a refused reload_until changed the replica".into());
+            }
+            return;
+        }
         let tt = m.reload_until(&set);
         self.emit("until", r, if tt.is_ok() { "ok" } else { "err" }, json!({"anchors": anchors}));
         let m = self.reps[r].m.as_ref().unwrap();
@@ -2207,6 +2238,12 @@ fn causally_complete(intact: &Items) -> Items {
         .collect()
 }
 
+/// a revision or an object body is staged (a body can be staged without a revision: an object created and
+/// removed again through the object API)
+fn any_staged(m: &Melda) -> bool {
+    m.has_staging() || !m.verif_data_index().1.is_empty()
+}
+
 fn strip_blocked(v: &Value) -> Value {
     let mut v = v.clone();
     if let Some(ds) = v.get_mut("deltas").and_then(|d| d.as_object_mut()) {
@@ -2312,7 +2349,13 @@ pub fn gen_op(w: &World, g: &mut Rng, sim_faults: bool) -> Value {
                     json!({"t": *g.pick(&special_strings())})
                 }
             }
-            _ => json!({"seq": g.below(1000)}),
+            _ => {
+                if g.chance(1, 3) {
+                    json!({"seq": g.below(1000), "x": crate::gen::random_double(g)})
+                } else {
+                    json!({"seq": g.below(1000)})
+                }
+            }
         }
     };
     let c = g.below(100);
